@@ -37,17 +37,20 @@ def run(ctx, cases_override=None):
         gen = ctx.tlc("Exit", "c05_gen.cfg", files={"c05_gen.cfg": CFG % (gen_n, "TRUE", "EmitCase")}, timeout=3000)
         cases = {key(v[0]): v[0] for v in prints(gen, "CASE")}
         n_exh = len(cases)
+        rnd = random.Random(ctx.seed * 7919 + 1)
         if not thorough:
-            # three problems per run: TLC simulation of the growth actions, seeded
+            # executed in quick: every case with <= 1 rule, a seeded 35% of the 2-rule cases, and 3-rule cases
+            # from a seeded TLC simulation of the growth actions (MC above covers all <= 2-rule cases)
+            keep = {k: c for k, c in cases.items() if len(c["reports"]) <= 1 or rnd.random() < 0.35}
             sim = ctx.tlc("Exit", "c05_sim.cfg", files={"c05_sim.cfg": CFG % (3, "TRUE", "EmitCase")},
-                          simulate=1200, depth=6, timeout=600, workers=4)
+                          simulate=600, depth=6, timeout=600, workers=4)
             for v in prints(sim, "CASE"):
                 if len(v[0]["reports"]) == 3:
-                    cases.setdefault(key(v[0]), v[0])
+                    keep.setdefault(key(v[0]), v[0])
+            cases = keep
         cases = [cases[k] for k in sorted(cases)]
         if thorough:
-            # every case with <= 2 problems, a seeded fifth of those with 3 (MC above covers all of them)
-            rnd = random.Random(ctx.seed * 7919 + 1)
+            # every case with <= 2 rules, a seeded fifth of those with 3 (MC above covers all of them)
             cases = [c for c in cases if len(c["reports"]) <= 2 or rnd.random() < 0.2]
     else:
         cases, n_exh = cases_override, 0
@@ -82,9 +85,12 @@ def run(ctx, cases_override=None):
     unbound = prints(j, "UNBOUND")
     viols = []
     for cid, v in prints(j, "VIOL"):
-        viols.append({"sig": sig_of(v), "case": cases[cid - 1], "detail": v,
-                      "what": "pint %s --fail-on=%s on problems %s exits %s but its own JSON report lists %s" % (
-                          v["cmd"], v["failOn"], v["reports"], v["exit"], [x["sev"] for x in v["json"]])})
+        what = "pint %s --fail-on=%s on problems %s exits %s but its own JSON report lists %s" % (
+            v["cmd"], v["failOn"], v["reports"], v["exit"], [x["sev"] for x in v["json"]])
+        if v.get("folded"):
+            what += " - the checks produced %s: problems were merged away and the exit status followed" % (
+                sorted("%s@r%s" % (x["sev"], x["rule"]) for x in v["produced"]))
+        viols.append({"sig": sig_of(v), "case": cases[cid - 1], "detail": v, "what": what})
     if unbound and not viols:
         raise MachineryError("%d case(s) not realised by the binary (JSON report differs from the requested problems), e.g. %s"
                              % (len(unbound), json.dumps(unbound[0][1])[:600]))
@@ -101,10 +107,12 @@ def run(ctx, cases_override=None):
         "evaluations": len(trace),
         "distinct_nontrivial": len(nontriv),
         "rule": "GEN: every (cmd, --fail-on, --min-severity, --show-duplicates, list of <=N problems by kind/severity/duplicate "
-                "structure) within the bound (TLC exhaustive); executed: all cases with <=2 problems, plus for 3 problems a seeded "
-                "TLC simulation (quick) or a seeded fifth of the exhaustive set (thorough); non-trivial = distinct executed cases "
-                "with at least one reported problem",
-        "exhaustive": True, "mc_max_reports": mc_n, "gen_cases_exhaustive": n_exh, "cases": len(cases),
+                "structure) within the bound (TLC exhaustive); executed: quick = all cases with <=1 rule, a seeded 35% of the 2-rule "
+                "cases and 3-rule cases from a seeded TLC simulation; thorough = all cases with <=2 rules and a seeded fifth of the "
+                "3-rule cases; non-trivial = distinct executed cases with at least one reported problem",
+        "exhaustive": True, "exhaustive_note": "MC and GEN enumerate the bounded space completely; EXEC runs the subset described in rule",
+        "mc_max_reports": mc_n, "gen_cases_exhaustive": n_exh, "cases": len(cases),
+        "twin_cases": sum(1 for c in cases if any(x["kind"] == "twin" for x in c["reports"])),
         "cases_with_mixed_severities": len(mixed),
         "pint_processes": len(trace),
         "nonzero_exits": sum(1 for r in trace if r["exit"] != 0),
@@ -116,8 +124,10 @@ def run(ctx, cases_override=None):
         "every generated case is run with the real pint binary (lint in a scratch directory, ci in a scratch git repository with real git)",
         "the verdict compares the exit status with the severities in the binary's own --json report; the JSON report must list exactly "
         "the requested problems or the run counts as machinery failure",
-        "problems are provoked by rule/report, rule/label with a custom severity, unparsable expressions (Fatal) and "
-        "--require-owner on rules without an owner (Bug); one problem per rule",
+        "problems are provoked by rule/report, rule/label with a custom severity, unparsable expressions (Fatal), "
+        "--require-owner on rules without an owner (Bug) and twin label blocks (two problems on one rule differing in severity only)",
+        "second verdict predicate (folding): when requested problems are missing from the JSON report while the same check reported "
+        "on the same rule, the exit status must be the one all produced problems demand",
         "invalid --fail-on values are represented by 'error' and 'Bug'; --min-severity takes valid values only",
     ], drift=drift)
 
